@@ -1,7 +1,80 @@
-/- stub: overwritten by the builder of this engine -/
-import Driver.Common
-open Lean FV FV.Drv
+/-
+Driver for the language enumerator (`Model/Enum.lean`), exe `drv_enum`.
 
-def handle (_ : Json) : Except String Json := throw "driver not implemented"
+  {"op":"enum","grammar":G,"inst":[[regexId,[leaf…]]…],"start":"<start>","depth":d,"cap":c,"lim":n,"rot":r}
+      → {"trees":[{"tree":T,"tags":[regexId|null…],"valid":bool}…]}
+     `valid` is the verified checker `validB` on the enumerated tree with the oracle "leaf ∈ inst id"
+     (it is `true` by `C05_enum_checked`; the driver refuses to answer otherwise)
+  {"op":"greedy","binary":bool,"word":[units],"leaves":[leaf…],"tags":[regexId|null…],
+   "oracle":[[regexId,[units],m]…]}
+      → {"greedy":bool}       `regexGreedy` with the greedy-length table (absent pair = no match)
+-/
+import Driver.IRJson
+import Model.Enum
+open Lean FV FV.Drv FV.Enum
+
+def instOf (j : Json) : Except String (List (Nat × List Leaf)) := do
+  let rows ← j.getArr?
+  rows.toList.mapM (fun r => do
+    let a ← r.getArr?
+    let id ← (a[0]?.getD Json.null).getNat?
+    let ls ← (← (a[1]?.getD Json.null).getArr?).toList.mapM leafOfJson
+    pure (id, ls))
+
+def instFn (tbl : List (Nat × List Leaf)) : Inst := fun id =>
+  match tbl.find? (fun p => p.1 == id) with
+  | some p => p.2
+  | none => []
+
+def jTag : Option Nat → Json
+  | some r => Json.num (JsonNumber.fromNat r)
+  | none => Json.null
+
+def tagOf (j : Json) : Except String (Option Nat) :=
+  match j with
+  | Json.null => pure none
+  | x => do pure (some (← x.getNat?))
+
+def greedyTable (j : Json) : Except String (Nat → List Nat → Option Nat) := do
+  let rows ← j.getArr?
+  let tbl ← rows.toList.mapM (fun r => do
+    let a ← r.getArr?
+    let id ← (a[0]?.getD Json.null).getNat?
+    let us ← natArr (a[1]?.getD Json.null)
+    let m ← (a[2]?.getD Json.null).getNat?
+    pure (id, us, m))
+  return fun r z =>
+    match tbl.find? (fun p => p.1 == r && p.2.1 == z) with
+    | some p => some p.2.2
+    | none => none
+
+def handle (j : Json) : Except String Json := do
+  let op ← j.getObjValAs? String "op"
+  match op with
+  | "enum" =>
+    let G ← grammarOf (← j.getObjVal? "grammar")
+    let tbl ← instOf (← j.getObjVal? "inst")
+    let inst := instFn tbl
+    let R : RegexOracle := fun id l => (inst id).any (fun l' => decide (l' = l))
+    let start ← j.getObjValAs? String "start"
+    let d ← (← j.getObjVal? "depth").getNat?
+    let c ← (← j.getObjVal? "cap").getNat?
+    let lim ← (← j.getObjVal? "lim").getNat?
+    let rot ← (← j.getObjVal? "rot").getNat?
+    let ts := enumTrees G inst c (some lim) rot d start
+    let out ← ts.mapM (fun (p : Tree × List (Option Nat)) => do
+      let ok := validB G R p.1
+      if !ok then throw "enumerated tree rejected by the verified checker (contradicts C05_enum_checked)"
+      pure (Json.mkObj [("tree", jTree p.1), ("tags", Json.arr (p.2.map jTag).toArray),
+        ("valid", Json.bool ok)]))
+    return Json.mkObj [("trees", Json.arr out.toArray)]
+  | "greedy" =>
+    let binary ← (← j.getObjVal? "binary").getBool?
+    let word ← natArr (← j.getObjVal? "word")
+    let leaves ← (← (← j.getObjVal? "leaves").getArr?).toList.mapM leafOfJson
+    let tags ← (← (← j.getObjVal? "tags").getArr?).toList.mapM tagOf
+    let Rg ← greedyTable (← j.getObjVal? "oracle")
+    return Json.mkObj [("greedy", Json.bool (regexGreedy Rg binary word leaves tags 0))]
+  | _ => throw s!"unknown op {op}"
 
 def main : IO Unit := run handle
